@@ -2,6 +2,7 @@
   Property C07 — hiding commitments and proofs are blinded with fresh, sufficient randomness.
 -/
 import PCV.Proofs.KZG10
+import PCV.Proofs.Interp
 import PCV.Props.Examples
 
 namespace PCV.C07
@@ -67,6 +68,35 @@ theorem kzg10_commitments_differ (g γ β : F) (p r₁ r₂ : List F) (hγ : γ 
     · contradiction
     · exact sub_eq_zero.1 h0
   · intro h; rw [h]
+
+/-- **The simulator's step of the hiding argument.** A blinding polynomial with `h+1` of its
+`h+2` coefficients free already realises *every* view of `h` openings: for any committed `p`, any
+target commitment `c⋆`, any `h` query points (pairwise distinct and different from the trapdoor)
+and any claimed blinding values `tᵢ`, some blinding polynomial of length `h+1` gives exactly that
+commitment and those `random_v` values.  Hence commitment and `h` opening proofs are jointly
+independent of `p` when the blinding coefficients are uniform. -/
+theorem kzg10_blinding_realises_any_view (g γ β : F) (hγ : γ ≠ 0) (p : List F) (h : Nat)
+    (zs : Fin h → F) (hz : Function.Injective zs) (hβ : ∀ i, zs i ≠ β)
+    (cstar : F) (ts : Fin h → F) :
+    ∃ r : List F, r.length = h + 1 ∧ g * evalPoly p β + γ * evalPoly r β = cstar ∧
+      ∀ i, evalPoly r (zs i) = ts i := by
+  -- points: β first, then the query points; targets: (c⋆ − g·p(β))/γ, then the tᵢ
+  let pts : Fin (h + 1) → F := Fin.cons β zs
+  let vals : Fin (h + 1) → F := Fin.cons ((cstar - g * evalPoly p β) / γ) ts
+  have hinj : Function.Injective pts := by
+    intro a b
+    refine Fin.cases ?_ (fun a' => ?_) a <;> refine Fin.cases ?_ (fun b' => ?_) b <;> intro hab
+    · rfl
+    · simp only [pts, Fin.cons_zero, Fin.cons_succ] at hab; exact absurd hab.symm (hβ b')
+    · simp only [pts, Fin.cons_zero, Fin.cons_succ] at hab; exact absurd hab (hβ a')
+    · simp only [pts, Fin.cons_succ] at hab; rw [hz hab]
+  obtain ⟨r, hlen, hr⟩ := Interp.exists_poly_through pts vals hinj
+  refine ⟨r, hlen, ?_, fun i => ?_⟩
+  · have := hr 0
+    simp only [pts, vals, Fin.cons_zero] at this
+    rw [this]; field_simp; ring
+  · have := hr i.succ
+    simpa [pts, vals] using this
 
 example : KZG.commit (KZG.wfPowers (3 : K) 5 2 3 4) [1, 2, 3] (some 1) true [7, 0, 9, 4]
     = .ok (64, [7, 0, 9], [4]) := by decide
